@@ -416,7 +416,7 @@ RootCause(sc) == IF ~InTab(sc.objects, sc.root) THEN "root_missing"
 
 \* can the properties of a one-of member be read after linking?  ("ok" | cause)
 MemberCause(t, tab) ==
-    CASE t.kind = "ref"    -> (IF t.ns # "" THEN "foreign_member" ELSE IF InTab(tab, t.id) THEN "ok" ELSE "dangling_ref")
+    CASE t.kind = "ref"    -> (IF t.ns # "" \/ InTab(tab, t.id) THEN "ok" ELSE "dangling_ref")
       [] t.kind = "scope"  -> RootCause(t)
       [] t.kind = "object" -> "ok"
 MemberProps(t, tab) ==
@@ -425,8 +425,11 @@ MemberProps(t, tab) ==
       [] t.kind = "object" -> t.props
 DiscKinds(disc) == IF disc = "string" THEN {"string", "enum_string"} ELSE {"int", "enum_int"}
 \* inlined <=> every member declares the discriminator field, with the kind of the key
+\* (a member referring to a namespace that is not applied yet cannot be inspected now: it is skipped, and
+\* checked when that namespace is applied)
+Foreign(t) == t.kind = "ref" /\ t.ns # ""
 InlineOK(t, tab) ==
-    \A x \in t.members :
+    \A x \in {y \in t.members : ~Foreign(y.type)} :
         LET ps == {p \in MemberProps(x.type, tab) : p.name = t.field} IN
         IF t.inlined THEN ps # {} /\ \A p \in ps : p.type.kind \in DiscKinds(t.disc)
         ELSE ps = {}
